@@ -134,7 +134,7 @@ func Classify(p *Program) Class {
 		}
 		c.ops(st.Ops, 1)
 		for _, h := range st.Hooks {
-			if h.Kind == "add" && len(h.Ops) > 0 || h.Kind == "getctx" {
+			if h.Kind == "add" && len(h.Ops) > 0 || h.Kind == "getctx" || h.Kind == "getctxif" {
 				c.HasHook = true
 			}
 			c.ops(h.Ops, 1)
